@@ -221,8 +221,11 @@ def cmdResolve (family mode zones cache script question expect impl : String) : 
             let localIsDelegation := match (resolveLocal (Gen.RECURSION_LIMIT + 1) ctx q).2 with
               | .ok (.delegation _ _ _) => true
               | _ => false
+            -- D7: a forwarder's answer section is passed on as it is; adversarial forwarder replies
+            -- (family "faults") are outside the chain-shape claim, which assumes upstream lists its chain
+            let d7 := !(family == "faults" && (match rmode with | .fwd _ _ => true | _ => false))
             let c10 :=
-              if okRes && q.qtype != RT_CNAME && !isWildcardQ q.qtype && !localIsDelegation
+              if d7 && okRes && q.qtype != RT_CNAME && !isWildcardQ q.qtype && !localIsDelegation
                   && !chainShaped q.name q.qtype io.rrs then ["fail:C10:not-chain-shaped"] else []
             -- C01
             let c01 : List String :=
@@ -246,16 +249,30 @@ def cmdResolve (family mode zones cache script question expect impl : String) : 
                         if !isWildcardQ q.qtype && !rrs.isEmpty then
                           if io.kind = "nonauth" && permEq io.rrs rrs && io.soa.isNone && io.log.isEmpty then []
                           else ["fail:C01:local-override-not-exact"]
+                        else if isWildcardQ q.qtype && !rrs.isEmpty && okRes then
+                          -- ANY: every local record stays, and no cached/upstream record of a (name,type)
+                          -- the local data holds is added or substituted
+                          let extra := io.rrs.filter (fun r => !rrs.contains r)
+                          if !rrs.all (io.rrs.contains ·) then ["fail:C01:local-record-dropped-from-any-answer"]
+                          else if extra.any (fun e => rrs.any (fun l => l.name == e.name && l.rtype == e.rtype)) then
+                            ["fail:C01:local-record-supplemented-by-foreign-record"]
+                          else []
                         else []
                       | _ => [])
             -- C01 (d): records owned by an authoritative zone come from that zone
-            let c01d :=
-              if okRes && io.rrs.any (fun rr =>
+            let foreign := io.rrs.filter (fun rr =>
                   match allZones.get rr.name with
                   | some z => z.isAuthoritative && !isBeneathDelegation z rr.name &&
                       !((zoneAllRRs z).any (fun k => k.name == rr.name && k.rtype == rr.rtype && k.fields == rr.fields))
                       && (z.allWildcardRecords.isEmpty)
-                  | none => false) then ["fail:C01:K1-foreign-record-for-owned-name"] else []
+                  | none => false)
+            let fromUpstream (rr : RR) : Bool := script.any (fun e => match e.raw with
+              | some m => (m.answers ++ m.authority ++ m.additional).any (fun k => k.name == rr.name && k.rtype == rr.rtype && k.fields == rr.fields)
+              | none => false)
+            let c01d :=
+              if !okRes || foreign.isEmpty then []
+              else if foreign.all fromUpstream then ["fail:C01:K1-foreign-record-for-owned-name"]
+              else ["fail:C01:cached-record-used-for-locally-owned-name"]
             -- C07
             let c07 : List String :=
               if expect = "-" || expect = "unknown" then []
